@@ -357,6 +357,16 @@ def eval_cursor(item):
                     if (handle in c3) != (jid in want):
                         bad("cursor-contains-wrong", f"({jid} in cursor) = {handle in c3}, id set says {jid in want} (filter {f})",
                             f, jid in want, handle in c3)
+            # the same project reached through a symbolic link to its root: the same jobs, hence the same members
+            link = d.rstrip(os.sep) + "_via_link"
+            if not os.path.lexists(link):
+                os.symlink(d, link, target_is_directory=True)
+            pl = signac.Project(link)
+            for jid, (sp, doc) in jobs.items():
+                n += 1
+                if (pl.open_job(sp) in c3) != (jid in want):
+                    bad("cursor-contains-wrong", f"({jid} in cursor) through a project handle opened via a symlinked root = "
+                        f"{pl.open_job(sp) in c3}, id set says {jid in want} (filter {f})", f, jid in want, pl.open_job(sp) in c3)
             for sp in extra_sps:
                 n += 1
                 if p.open_job(sp) in c3:
